@@ -903,6 +903,9 @@ class Explorer:
                 changed = [k for k in TRACKED if k not in ("response", "scope") and _canon(pre.get(k, 'absent')) != _canon(post.get(k, 'absent'))]
                 if changed:
                     self.report("C12.R2", f"{mtype} in {pre_state}: changes {'/'.join(changed)} then raises {r.exc} at {r.site}", f"{self.cls}.app_send raises {r.exc} for {label} ({r.detail or 'raise'}) but has already changed {changed}: later messages and the application's exit take the wrong arm", word, r.where)
+        # ---- anything after completion raises (HTTP; for WebSocket post-close sends are silent by C03)
+        if self.cls == "HTTPStream" and kind == "app" and label != "None" and pre_state == "CLOSED" and outcome == "ok":
+            self.report("C12.R1t", f"{mtype} accepted after the response was completed (state CLOSED)", f"{self.cls}.app_send accepts {label} silently although the response is complete: a message after completion must raise into the application", word, line)
         # ---- closed => app_send is a silent no-op
         if kind == "app" and pre.get("closed") is True and self.cls == "WSStream":
             if outcome == "raise" or emits or puts:
@@ -1087,6 +1090,7 @@ RULE_MAP = {
     "C11.R4": {"C11": "C11.R4"},
     "C12.R2": {"C12": "C12.R2", "C05": "C05.R5"},
     "C12.R3": {"C12": "C12.R3"},
+    "C12.R1t": {"C12": "C12.R1"},
     "escape": {"C05": "C05.R6", "C03": "C03.R8"},
 }
 
